@@ -1,4 +1,6 @@
 import OsloPolicy.Proofs.SchedSafe
+import OsloPolicy.Proofs.SchedNoDirs
+import OsloPolicy.Properties.C20
 /-
 C20, the part that holds (see Properties/C20.lean for the counterexample on today's code).
 -/
@@ -29,5 +31,20 @@ theorem swap_safe_all_schedules (sc : Scenario) (mainOld dirsOld : Content) (ms 
     (∀ d, r.2.1.out = some d → OldOrNew sc mainOld dirsOld d) ∧
     (∀ d, r.2.2.out = some d → OldOrNew sc mainOld dirsOld d) :=
   swap_safe sc mainOld dirsOld ms ds sched
+
+/-- **Without policy-directory content a reload is safe against a complete concurrent `enforce`.**
+Thread A is preempted after ANY number `k` of steps of its `enforce` (anywhere in its reload of an edited main
+file, or before, or after), thread B runs a whole `enforce`, thread A finishes: both decisions are those of the
+complete old or the complete new policy — for every scenario with nothing in the policy directories, every list of
+registered defaults, every default rule. (B's own load step re-adds every registered default that A's overwrite of
+the store removed, before B decides.) This is the class the `registered_default_no_dir_files` and
+`registered_default_permissive` schedules of the check explore on the real code; the counterexample
+`inplace_violates` needs a directory override. -/
+theorem no_dirs_one_switch_safe (sc : Scenario) (mainOld : Content) (ms : Bool)
+    (hd : sc.dirsNew = []) (hm : ms = false → mainOld = sc.mainNew) (k : Nat) :
+    let r := oneSwitch sc ⟨compute sc mainOld [], ms, false⟩ k
+    (∃ d, r.1 = some d ∧ OldOrNew sc mainOld [] d) ∧ (∃ d, r.2 = some d ∧ OldOrNew sc mainOld [] d) := by
+  have h := Sched.no_dirs_one_switch_safe sc mainOld ms hd hm k
+  simpa only [OldOrNew, hd] using h
 
 end OsloPolicy.C20
